@@ -3,6 +3,7 @@ package props
 import (
 	"errors"
 	"fmt"
+	"github.com/remieven/ysgo"
 	"math"
 	"os"
 	"os/exec"
@@ -54,26 +55,27 @@ func (e c10Errno) Error() string { return fmt.Sprintf("errno %d", int(e)) }
 
 func (c10) Thresholds(tier string) map[string]int64 {
 	th := map[string]int64{
-		"scripts":                               1000,
-		"commands-executed":                     2500,
-		"waiting-polls-observed":                3000,
-		"polls-issued-with-gate-closed":         3000,
-		"pending-command-is-the-last-statement": 100,
-		"completion-by-closing-the-channel":     200,
-		"completion:nil":                        1200,
-		"completion:error":                      600,
-		"error-surfaced-exactly-once":           600,
-		"resumed-at-next-statement":             2000,
-		"handler-invoked-exactly-once":          2500,
-		"real-timing-runners":                   400,
-		"real-timing-commands":                  1500,
-		"order:handler-returned-before-poll":    50,
-		"order:poll-before-handler-returned":    50,
-		"wait-commands":                         10,
-		"wait-fractional":                       6,
-		"waits-longer-than-the-run":             8,
-		"race-detector-enabled-children":        1,
-		"race-canary-reported":                  1,
+		"scripts":                                    1000,
+		"commands-executed":                          2500,
+		"waiting-polls-observed":                     3000,
+		"polls-issued-with-gate-closed":              3000,
+		"pending-command-is-the-last-statement":      100,
+		"completion-by-closing-the-channel":          200,
+		"completion:nil":                             1200,
+		"completion:error":                           600,
+		"error-surfaced-exactly-once":                600,
+		"resumed-at-next-statement":                  2000,
+		"handler-invoked-exactly-once":               2500,
+		"real-timing-runners":                        400,
+		"real-timing-commands":                       1500,
+		"order:handler-returned-before-poll":         50,
+		"order:poll-before-handler-returned":         50,
+		"wait-commands":                              10,
+		"wait-fractional":                            6,
+		"waits-longer-than-the-run":                  8,
+		"refused-restore-while-a-command-is-pending": 200,
+		"race-detector-enabled-children":             1,
+		"race-canary-reported":                       1,
 	}
 	for _, s := range c10Shapes {
 		th["shape:"+s] = 150
@@ -656,6 +658,17 @@ func (p c10) gated(c *core.Ctx) {
 				}
 				c.Feature("waiting-polls-observed")
 				for polled = 1; polled < k.polls; polled++ {
+					if r.Chance(1, 5) {
+						// the host tries to load a save that names a node this dialogue does not have: the restore
+						// is refused and changes nothing - the command is still pending
+						err := rr.RestoreAt(&ysgo.Snapshot{CurrentNode: "NoSuchNode", VisitedNodes: map[string]int{"Start": 2}})
+						trace = append(trace, fmt.Sprintf("RestoreAt(snapshot of an unknown node) = %v", err))
+						if err == nil {
+							fail("RestoreAt accepted a snapshot naming an unknown node")
+							return
+						}
+						c.Feature("refused-restore-while-a-command-is-pending")
+					}
 					var fired bool
 					o, fired = next(k)
 					c.Feature("polls-issued-with-gate-closed")
